@@ -71,6 +71,12 @@ func ledgerStrata() []stratum {
 		{"big", with(func(c *gen.LCfg) {
 			c.PBig, c.PVarAmt = 45, 40
 		}), 2},
+		{"bigvars", with(func(c *gen.LCfg) {
+			c.Accounts = []string{"a", "b"}
+			c.Assets = []string{"USD"}
+			c.PBig, c.PVarAmt, c.PDstSeq, c.PSrcSeq, c.PKept, c.PWorld = 70, 70, 60, 40, 10, 20
+			c.MinStmts, c.MaxStmts, c.Depth = 2, 4, 2
+		}), 3},
 		{"vars", with(func(c *gen.LCfg) {
 			c.PVarAcct, c.PVarAmt, c.PInfix, c.PPortionVar, c.POriginVar = 70, 60, 35, 50, 15
 		}), 2},
